@@ -61,6 +61,10 @@ Search(out, res) ==
 Foreign(out) == out \in {"none", "refused"} /\ UNCHANGED svars
 Unknown(out) == out \in {"none", "refused"} /\ UNCHANGED svars
 
+(* a configuration / index upload whose content the server cannot decode or store (outside the message alphabet the     *)
+(* property enumerates, but "a refused request changes nothing" speaks of it): never acknowledged, no effect               *)
+Malformed(out) == out \in {"none", "refused"} /\ UNCHANGED svars
+
 (* closing / re-opening a connection, and a restart of the server process, do not change the machine *)
 Close == UNCHANGED svars
 
@@ -68,7 +72,7 @@ SMNext == \/ \E r \in 0..2 : Connect(r)
           \/ \E c \in Cfgs, o \in Outcomes : Config(c, o)
           \/ \E x \in Idxs, o \in Outcomes : Upload(x, o)
           \/ \E o \in Outcomes, r \in Idxs \cup {0} : Search(o, r)
-          \/ \E o \in Outcomes : Foreign(o) \/ Unknown(o)
+          \/ \E o \in Outcomes : Foreign(o) \/ Unknown(o) \/ Malformed(o)
           \/ Close
 
 SMSpec == SMInit /\ [][SMNext]_svars
